@@ -75,6 +75,76 @@ def run(ctx):
     tc = [n for n in ast.walk(fi.node) if isinstance(n, ast.AugAssign) and ast.unparse(n.target) == "to_check"]
     ok = any("net.group.element_type.values == element_type" in ast.unparse(n.value) for n in tc)
     ctx.ob(R3, f"{G}::detach_from_groups::type-filter", ok, "only groups of the same element type are touched", fi.loc())
+    rule_group_cells(ctx)
+
+
+def rule_group_cells(ctx):
+    """the member lists live as list objects in the cells of net.group.element_index (rows of one group can share a list object):
+    they are replaced, never mutated in place; and an index argument is tested with `is None` (group 0 is a valid index)"""
+    from ppsa.astutil import names_in
+    G = "pandapower.groups"
+    R = "GROUP-CELL-ALIAS"
+    ctx.rule(R, "a member list read from a cell of net.group (element_index) is never changed in place (+=, append, extend, remove, "
+                "sort, item store): a new list is written back to the cell")
+    MUT = {"append", "extend", "remove", "insert", "sort", "pop", "clear", "reverse"}
+    n = 0
+    for fi in ctx.repo.module(G).functions.values():
+        cell = set()
+        for st in ast.walk(fi.node):
+            if isinstance(st, ast.Assign) and len(st.targets) == 1 and isinstance(st.targets[0], ast.Name):
+                v = st.value
+                t = ast.unparse(v)
+                reads_cell = "element_index" in t and ("net.group" in t or "row" in names_in(v)) and not isinstance(v, (ast.Call, ast.ListComp, ast.List))
+                if isinstance(v, ast.IfExp):
+                    # x = [x] if scalar else list(x): fresh on both sides
+                    reads_cell = False
+                if reads_cell:
+                    cell.add(st.targets[0].id)
+        # a conditional copy (`elif not isinstance(x, list): x = list(x)`) leaves the list case aliased
+        for st in ast.walk(fi.node):
+            if isinstance(st, ast.Assign) and isinstance(st.targets[0], ast.Name) and st.targets[0].id in cell:
+                pass
+        for name in sorted(cell):
+            n += 1
+            muts = []
+            copies_unconditional = False
+            for st in fi.node.body if False else ast.walk(fi.node):
+                if isinstance(st, ast.AugAssign) and isinstance(st.target, ast.Name) and st.target.id == name:
+                    muts.append(st)
+                if isinstance(st, ast.Call) and isinstance(st.func, ast.Attribute) and st.func.attr in MUT and isinstance(st.func.value, ast.Name) \
+                        and st.func.value.id == name:
+                    muts.append(st)
+                if isinstance(st, ast.Assign) and isinstance(st.targets[0], ast.Subscript) and isinstance(st.targets[0].value, ast.Name) \
+                        and st.targets[0].value.id == name:
+                    muts.append(st)
+            ctx.ob(R, f"{G}::{fi.qualname}::{name}", not muts,
+                   f"{name} (a cell of net.group.element_index) is only read" if not muts else
+                   f"`{ast.unparse(muts[0])[:80]}` changes the list object stored in the group table in place: every other row or caller that "
+                   "holds the same list sees the new members", fi.loc(muts[0]) if muts else fi.loc())
+    if n < 2:
+        ctx.fail(f"GROUP-CELL-ALIAS: only {n} reads of member-list cells found in pandapower/groups.py")
+    R2 = "INDEX-NONE-CHECK"
+    ctx.rule(R2, "group functions test an optional index argument with `is None`: `not index` also catches the valid group index 0 (and "
+                 "then acts on every group)")
+    n2 = 0
+    for fi in ctx.repo.module(G).functions.values():
+        a = fi.node.args
+        params = a.args + a.kwonlyargs
+        defaults = [None] * (len(a.args) - len(a.defaults)) + list(a.defaults) + list(a.kw_defaults)
+        opt = {p.arg for p, d in zip(params, defaults) if d is not None and isinstance(d, ast.Constant) and d.value is None
+               and ("index" in p.arg)}
+        for node in ast.walk(fi.node):
+            if isinstance(node, (ast.If, ast.IfExp, ast.While)):
+                for sub in ast.walk(node.test):
+                    if isinstance(sub, ast.UnaryOp) and isinstance(sub.op, ast.Not) and isinstance(sub.operand, ast.Name) and sub.operand.id in opt:
+                        n2 += 1
+                        ctx.ob(R2, f"{G}::{fi.qualname}::{sub.operand.id}", False,
+                               f"`not {sub.operand.id}` treats the group index 0 (and an empty selection) like 'no index given'", fi.loc(node))
+                    if isinstance(sub, ast.Compare) and isinstance(sub.left, ast.Name) and sub.left.id in opt and isinstance(sub.ops[0], (ast.Is, ast.IsNot)):
+                        n2 += 1
+                        ctx.ob(R2, f"{G}::{fi.qualname}::{sub.left.id}", True, f"{sub.left.id} is tested with is None", fi.loc(node))
+    if n2 < 2:
+        ctx.fail(f"INDEX-NONE-CHECK: only {n2} tests of optional index arguments found")
 
 
 def variants(repo):
@@ -83,6 +153,8 @@ def variants(repo):
     gm = "pandapower/toolbox/grid_modification.py"
     V = Variant
     return [
+        V("member list extended in place", g, in_function("attach_to_group", lambda s: s.replace("            prev_elm = [prev_elm] if isinstance(prev_elm, str) or not hasattr(\n                prev_elm, \"__iter__\") else list(prev_elm)\n", "            if isinstance(prev_elm, str) or not hasattr(prev_elm, \"__iter__\"):\n                prev_elm = [prev_elm]\n            prev_elm += list(pd.Index(elm).difference(pd.Index(prev_elm)))\n", 1)), "GROUP-CELL-ALIAS"),
+        V("index 0 treated as no index", g, replace_once("    if index is None:", "    if not index:"), "INDEX-NONE-CHECK"),
         V("empty group kept", g, in_function("detach_from_groups", replace_once("        if not len(net.group.element_index.iat[i]):\n            keep[i] = False\n", "        if len(net.group.element_index.iat[i]) > 1:\n            keep[i] = False\n")), "EMPTY-GROUP"),
         V("type filter lost", g, in_function("detach_from_groups", replace_once("    to_check &= net.group.element_type.values == element_type\n", "")), "type-filter"),
         V("reindex ignores groups of reference column", dm, in_function("reindex_elements", replace_once("net.group.reference_column.isnull().values]:", "net.group.reference_column.notnull().values]:")), "REINDEX-GROUP"),
